@@ -9,8 +9,14 @@ writer and asyncio's transport write.
                      reads at random (write backlog `__write_all_to_ssl_object`, flushes)
   kind = "aio"       AsyncioTransportStreamSocketAdapter (writelines + drain) over a socketpair
 
-Judged by behaviour only: the peer reads exactly the concatenation of the chunks and the call returns (a call that is
-still running after the generous watchdog delay is reported as `out hang`).  No wall-clock thresholds otherwise.
+Every chunk is handed over as a buffer of the kind named in case["kinds"] (vlib/c04_bufs.mk_buffer: bytes, bytearray, views
+of bytes / bytearray / array("H"|"I"|"Q") — itemsize 2/4/8 —, shaped casts — two dimensions —, slices); entry "all" hands
+the whole data as ONE buffer of kind case["allkind"] to send_all().  Chunks of 70 000 / 300 000 bytes with a slow peer give
+real partial writes of the kernel / OpenSSL / asyncio's transport in the middle of such a buffer.  "sndbuf": SO_SNDBUF of the
+sending socket (small = the first write of a big buffer is always partial, whatever the peer does).
+
+Judged by behaviour only: the peer reads exactly the concatenation of the BYTES of the buffers and the call returns (a call
+that is still running after the generous watchdog delay is reported as `out hang`).  No wall-clock thresholds otherwise.
 """
 from __future__ import annotations
 
@@ -44,10 +50,30 @@ def _chunks(case: dict) -> list[bytes]:
     for spec in case["chunks"]:
         if isinstance(spec, list):   # [length, first byte] : long deterministic chunk
             n, b0 = spec
-            out.append(bytes((b0 + i) % 256 for i in range(n)))
+            rot = bytes(range(256))[b0 % 256:] + bytes(range(256))[:b0 % 256]     # byte i = (b0 + i) % 256
+            out.append((rot * (n // 256 + 1))[:n])
         else:
             out.append(bytes.fromhex(spec) if spec != "-" else b"")
     return out
+
+
+def _bufs(case: dict) -> list[Any]:
+    """the chunks as buffers of the kinds the case names"""
+    from vlib import c04_bufs
+
+    kinds = case.get("kinds") or []
+    return [c04_bufs.mk_buffer(c, kinds[i] if i < len(kinds) else "b") for i, c in enumerate(_chunks(case))]
+
+
+def _whole(case: dict) -> Any:
+    from vlib import c04_bufs
+
+    return c04_bufs.mk_buffer(b"".join(_chunks(case)), case.get("allkind", "b"))
+
+
+def _sndbuf(case: dict, sock: socket.socket) -> None:
+    if case.get("sndbuf"):
+        sock.setsockopt(socket.SOL_SOCKET, socket.SO_SNDBUF, int(case["sndbuf"]))
 
 
 def _digest_line(b: bytes) -> str:
@@ -81,9 +107,11 @@ def _run_threaded(case: dict) -> list[str]:
     from vlib import c04_env as env
 
     chunks = _chunks(case)
+    bufs = _bufs(case)
     total = sum(len(c) for c in chunks)
     rng = random.Random(case["seed"])
     a, b = socket.socketpair()
+    _sndbuf(case, a)
     got = bytearray()
     peer_err: list[BaseException] = []
     is_tls = case["kind"] == "openssl"
@@ -127,9 +155,11 @@ def _run_threaded(case: dict) -> list[str]:
             ep = StreamEndpoint(tr, StreamProtocol(_serializer()), 1024)
             tmo = case["timeout"]
             if case["entry"] == "packet":
-                ep.send_packet(chunks, timeout=tmo)
+                ep.send_packet(bufs, timeout=tmo)
+            elif case["entry"] == "all":
+                tr.send_all(_whole(case), math.inf if tmo is None else tmo)
             else:
-                tr.send_all_from_iterable(iter(chunks), math.inf if tmo is None else tmo)
+                tr.send_all_from_iterable(iter(bufs), math.inf if tmo is None else tmo)
             result["exc"] = None
         except BaseException as e:  # noqa: BLE001
             result["exc"] = e
@@ -142,7 +172,8 @@ def _run_threaded(case: dict) -> list[str]:
         lines.append(_digest_line(bytes(got)))
         lines.append("out hang")
         return lines
-    th.join(WATCHDOG)
+    # the sender is done: closing our side first lets a peer that waits for bytes that were never sent see the end of the
+    # stream at once (what is in the socket buffer stays readable)
     try:
         tr = holder.get("tr")
         if tr is not None:
@@ -151,6 +182,7 @@ def _run_threaded(case: dict) -> list[str]:
             a.close()
     except Exception:
         pass
+    th.join(WATCHDOG)
     b.close()
     if peer_err:
         lines.append(f"peer-exc {type(peer_err[0]).__name__}")
@@ -276,6 +308,7 @@ async def _atls(case: dict) -> list[str]:
     from easynetwork.lowlevel.api_async.transports.tls import AsyncTLSStreamTransport
 
     chunks = _chunks(case)
+    bufs = _bufs(case)
     total = sum(len(c) for c in chunks)
     rng = random.Random(case["seed"])
     backend = AsyncIOBackend()
@@ -309,9 +342,14 @@ async def _atls(case: dict) -> list[str]:
     kk = asyncio.ensure_future(kicker()) if plan else None
     try:
         if case["entry"] == "all":
-            await client.send_all(b"".join(chunks))
+            await client.send_all(_whole(case))
+        elif case["entry"] == "packet":
+            from easynetwork.lowlevel.api_async.endpoints.stream import AsyncStreamEndpoint
+            from easynetwork.protocol import StreamProtocol
+
+            await AsyncStreamEndpoint(client, StreamProtocol(_serializer()), max_recv_size=1024).send_packet(bufs)
         else:
-            await client.send_all_from_iterable(iter(chunks))
+            await client.send_all_from_iterable(iter(bufs))
         # the send returned: everything is in the in-memory pipe, the reader needs loop turns only, no time.
         # (load-independent criterion: bytes that have not arrived after this many turns were never sent)
         for _ in range(20000):
@@ -335,10 +373,12 @@ async def _aio(case: dict) -> list[str]:
     from easynetwork.lowlevel.api_async.backend._asyncio.backend import AsyncIOBackend
 
     chunks = _chunks(case)
+    bufs = _bufs(case)
     total = sum(len(c) for c in chunks)
     rng = random.Random(case["seed"])
     backend = AsyncIOBackend()
     a, b = socket.socketpair()
+    _sndbuf(case, a)
     b.setblocking(False)
     loop = asyncio.get_running_loop()
     tr = await backend.wrap_stream_socket(a)
@@ -357,10 +397,25 @@ async def _aio(case: dict) -> list[str]:
     rd = asyncio.ensure_future(reader())
     try:
         if case["entry"] == "all":
-            await tr.send_all(b"".join(chunks))
+            await tr.send_all(_whole(case))
+        elif case["entry"] == "packet":
+            from easynetwork.lowlevel.api_async.endpoints.stream import AsyncStreamEndpoint
+            from easynetwork.protocol import StreamProtocol
+
+            await AsyncStreamEndpoint(tr, StreamProtocol(_serializer()), max_recv_size=1024).send_packet(bufs)
         else:
-            await tr.send_all_from_iterable(iter(chunks))
-        await rd
+            await tr.send_all_from_iterable(iter(bufs))
+        # the send returned: the adapter's drain let it go, so every byte is in the kernel or already read; on a socketpair
+        # delivery is synchronous: bytes that have not arrived after 300 quiet turns (250 of them 1 ms long) were never sent
+        idle, last = 0, len(got)
+        while not rd.done() and idle < 300:
+            await asyncio.sleep(0.001 if idle > 50 else 0)
+            idle = idle + 1 if len(got) == last else 0
+            last = len(got)
+        if rd.done():
+            await rd
+        else:
+            rd.cancel()
     except BaseException as e:  # noqa: BLE001
         exc = e
         rd.cancel()
@@ -428,6 +483,47 @@ def oracle(case: dict, real: list[str]) -> str | None:
     return None
 
 
+def nontrivial(case: dict, real: list[str]) -> str | None:
+    from vlib import c04_bufs
+
+    if real and real[0].startswith("skipped"):
+        return None
+    sizes = [len(c) for c in _chunks(case)]
+    if case.get("entry") == "all":
+        k = case.get("allkind", "b")
+        wide = k in c04_bufs.WIDE_KINDS and c04_bufs.fits(k, sum(sizes)) and sum(sizes) > 0
+    else:
+        kinds = case.get("kinds") or []
+        wide = any(k in c04_bufs.WIDE_KINDS and c04_bufs.fits(k, n) and n > 0 for k, n in zip(kinds, sizes))
+    big = any(n >= 70000 for n in sizes)
+    return case["kind"] + ("/wide" if wide else "") + ("/big" if big else "")
+
+
+def _kind_case(kind: str, entry: str, chunks: list, kinds: list[str], allkind: str = "b", **kw: Any) -> dict:
+    return {"kind": kind, "chunks": chunks, "kinds": kinds, "allkind": allkind, "seed": kw.pop("seed", 11), "entry": entry,
+            "timeout": None, "sendmsg": True, **kw}
+
+
+def corpus() -> list[dict]:
+    """kinds of buffer on the real kernel / OpenSSL / asyncio: a buffer that fits the socket (complete write) and one that
+    does not (partial writes in the middle of it, SO_SNDBUF 16 KiB), for every wide kind, through every entry point."""
+    cs: list[dict] = []      # (the failing inputs of docs/C04-fix-4 / fix-5 themselves are in corpus/C04/buffer-kinds.json)
+    from vlib import c04_bufs
+
+    for kind in ("realsock", "openssl", "atls", "aio"):
+        for bk in c04_bufs.WIDE_KINDS:
+            cs.append(_kind_case(kind, "all", [[70000, 1]], ["b"], allkind=bk, sndbuf=16384, sendmsg=bk != "mvQ"))
+            cs.append(_kind_case(kind, "iterable", ["6864", [70000, 2], "-", "0102030405060708"], ["b", bk, bk, bk], sndbuf=16384))
+            cs.append(_kind_case(kind, "packet", [[5000, 3], "-", "0102030405060708"], [bk, bk, bk]))
+    return cs
+
+
+def array_bytes(fmt: str, n: int) -> bytes:
+    import array
+
+    return array.array(fmt, range(n)).tobytes()
+
+
 def _fixed_inject_cases():
     """critical cases: SSLObject.write() reports WANT_WRITE / WANT_READ in the middle of a multi-chunk send and the
     method is retried with the same backlog: the chunk whose write was refused must be offered again, once"""
@@ -451,14 +547,24 @@ def generate(rng, tier: str, boost: int):
             if r < 0.3:
                 chunks.append("-")
             elif r < 0.8:
-                chunks.append(bytes(rng.randrange(256) for _ in range(rng.randint(1, 9))).hex())
+                chunks.append(bytes(rng.randrange(256) for _ in range(rng.choice([1, 2, 3, 4, 5, 7, 8, 8, 9, 16]))).hex())
             else:
                 chunks.append([rng.choice([5000, 70000, 300000]), rng.randrange(256)])
         if rng.random() < 0.3:
             chunks.append("-")
-        case = {"kind": kind, "chunks": chunks, "kinds": ["b"] * len(chunks), "seed": rng.randrange(1 << 30),
-                "entry": rng.choice(["packet", "iterable"]) if kind in ("realsock", "openssl") else rng.choice(["iterable", "iterable", "all"]),
+        from vlib import c04_bufs
+
+        sizes = [(c[0] if isinstance(c, list) else 0 if c == "-" else len(c) // 2) for c in chunks]
+        kinds = []
+        for n_ in sizes:
+            k = rng.choice(("b", "b", "b") + c04_bufs.BUF_KINDS)
+            kinds.append(k if c04_bufs.fits(k, n_) else "b")
+        case = {"kind": kind, "chunks": chunks, "kinds": kinds, "seed": rng.randrange(1 << 30),
+                "entry": rng.choice(["packet", "iterable", "iterable", "all"]),
+                "allkind": rng.choice([k for k in c04_bufs.BUF_KINDS if c04_bufs.fits(k, sum(sizes))]),
                 "timeout": rng.choice([None, WATCHDOG]), "sendmsg": rng.random() < 0.7}
+        if rng.random() < 0.4:
+            case["sndbuf"] = rng.choice([4096, 16384, 65536])
         if kind == "atls" and chunks and rng.random() < 0.6:
             idx = sorted(rng.sample(range(len(chunks) + 1), k=min(len(chunks) + 1, rng.randint(1, 2))))
             case["inject"] = [[k, rng.choice(["wantw", "wantr"])] for k in idx]
